@@ -21,13 +21,16 @@ TRUSTED_BASE = ["reference leg: the documented precondition evaluated in the har
                 "site inventory: grep of TETL_PRECONDITION over /repo/include against props/C05/sites.json"]
 ASSUMPTIONS = ["LP64", "object snapshot = sizeof(object) bytes (inline storage only, which is all these types have)"]
 
+# inplace_string<4|15|16|20> (tiny layout up to 15, normal from 16), basic_inplace_string<wchar_t, 15|16> (4-byte characters),
+# basic_inplace_string<char16_t, 15|16> (2-byte characters)
+FLAVOURS = (("str", 4), ("str", 15), ("str", 16), ("str", 20), ("wstr", 15), ("wstr", 16), ("u16str", 15), ("u16str", 16))
 BIG = [-1, -2, 2**63, 2**63 - 1, 2**64 - 1 - 3, 2**32, 2**64 - 4]
 
 
 def gen_more(out):
     """inplace_string (every guarded operation at and beyond its boundary, plus the clamping ones that must never fire)
     and the remaining components"""
-    for (flavour, cap) in (("str", 4), ("str", 15), ("str", 16), ("str", 20), ("wstr", 15), ("wstr", 16)):
+    for (flavour, cap) in FLAVOURS:
         for k in sorted({0, 1, 2, cap - 1, cap}):
             S = f"{flavour} {cap} {k}"
             room = cap - k
@@ -69,9 +72,30 @@ def gen_more(out):
             for ls in (0, 3, 26):
                 for ps in sorted({0, 1, ls, ls + 1}) + [-1, 2**63]:
                     for c in sorted({0, 1, cap, cap + 1}) + [-1]:
-                        out += [f"{S} app_view_sub {ls} {ps} {c}", f"{S} asg_view_sub {ls} {ps} {c}"]
+                        out += [f"{S} app_view_sub {ls} {ps} {c}", f"{S} asg_view_sub {ls} {ps} {c}", f"{S} ctor_view_sub {ls} {ps} {c}"]
+            # range / view / C-string constructors and assignments, operator+, the iterator categories of append(first, last)
+            for n in sorted({0, 1, room, room + 1, cap, cap + 1, 26}):
+                for o in ("ctor_rng", "ctor_rev", "ctor_fwd", "ctor_view", "ctor_cstr", "asg_rng", "asg_rev", "asg_fwd", "asg_view",
+                          "opeq_view", "asg_cstr2", "app_rev", "app_fwd", "app_view", "app_cstr", "plus_cstr"):
+                    out.append(f"{S} {o} {n}")
+                if n <= cap:
+                    out.append(f"{S} plus_str {n}")
+            for n in (0, 1, 26):
+                out += [f"{S} ctor_rng_rev {n}", f"{S} asg_rng_rev {n}"]
+            for o in ("opeq_ch", "plus_ch", "pluseq_ch"):
+                out.append(f"{S} {o}")
+            for n in sorted({0, 1, k, cap, cap + 1}) + [-1, 2**63]:
+                out.append(f"{S} resize1 {n}")
+            for ls in sorted({0, 3, cap}):
+                for ps in sorted({0, 1, ls, ls + 1}) + [-1, 2**63]:
+                    out.append(f"{S} ctor_str_pos {ls} {ps}")
+                    for c in (0, 1, cap, -1):
+                        out += [f"{S} ctor_str_sub {ls} {ps} {c}", f"{S} asg_str_sub {ls} {ps} {c}"]
+            for p in POS:
+                for c in (0, 1, 26, -1):
+                    out.append(f"{S} copy {c} {p}")
     for d in range(-4, 9):
-        out.append(f"sset {d}")
+        out += [f"sset {d}", f"sset_dup {d}"]
     for o in ("pb", "eb", "pop", "fr", "bk", "cfr", "cbk"):
         out.append(f"vec0 0 {o}")
     for n in (0, 1, 2, -1, 2**63):
@@ -96,6 +120,18 @@ def gen_more(out):
             text = " ".join(str(c) for c in (ln,) + chars)
             for pos in sorted({0, 1, ln, ln + 1}) + [-1, 2**63]:
                 for n in sorted({0, 1, 2, ln}) + [-1, 2**64 - 1 - ln]:
+                    out += [f"bsstr {text} {pos} {n}", f"bsstr2 {text} {pos} {n}"]
+            for n in list(range(0, ln + 1)) + [-1]:
+                out.append(f"bscstr {text} 0 {n}")
+    # strings longer than the bitset: every one of the min(n, size - pos) characters is checked
+    for ln in (9, 10):
+        for bad in range(0, ln + 1):
+            chars = [48 + (i % 2) for i in range(ln)]
+            if bad < ln:
+                chars[bad] = 50
+            text = " ".join(str(c) for c in [ln] + chars)
+            for pos in (0, 1, ln):
+                for n in (0, 8, 9, ln, -1):
                     out.append(f"bsstr {text} {pos} {n}")
     vals = [0]
     for m in (1, 9, 10, 99, 100, 999, 1000, 9999, 10**9 - 1, 10**9, 2**31 - 1, 2**31, 10**10 - 1, 10**10, 10**18, 2**63 - 1, 2**63):
@@ -128,6 +164,9 @@ STR_OPS = {  # op -> argument kinds: p = position, c = count, l = source length 
     "ins_str_sub": "pmpc", "ins_view_sub": "plpc", "era": "pc", "rep": "pcm", "rep5": "pcmpc", "rep_ptr": "pcl", "rep_cstr": "pcl",
     "substr": "pc", "app_view_sub": "lpc", "asg_view_sub": "lpc", "app_str_sub": "mpc", "ctor_ptr": "c", "ctor_fill": "c",
     "asg_fill": "c", "asg_ptr": "c", "app_fill": "c", "resize": "c", "app_ptr": "c", "app_str": "m", "app_rng": "l", "pluseq_str": "m",
+    "ctor_rng": "l", "ctor_rev": "l", "ctor_fwd": "l", "ctor_view": "l", "asg_rng": "l", "asg_rev": "l", "asg_fwd": "l", "asg_view": "l",
+    "app_rev": "l", "app_fwd": "l", "plus_str": "m", "ctor_view_sub": "lpc", "ctor_str_sub": "mpc", "asg_str_sub": "mpc", "resize1": "c",
+    "copy": "cp",
 }
 
 
@@ -136,7 +175,7 @@ def gen_random(out, rng, n):
     arithmetic on 2- and 4-byte characters wraps) and from all 64-bit values"""
     ops = sorted(STR_OPS)
     for _ in range(n):
-        flavour, cap = rng.choice((("str", 4), ("str", 15), ("str", 16), ("str", 20), ("wstr", 15), ("wstr", 16)))
+        flavour, cap = rng.choice(FLAVOURS)
         k = rng.choice((0, 1, cap // 2, cap - 1, cap))
         pool = [0, 1, 2, k - 1, k, k + 1, cap - k, cap - k + 1, cap, cap + 1, 2**61, 2**62, 2**62 + k, 2**63, 2**63 + k + 1,
                 2**64 - 1, 2**64 - 2, 2**64 - k, 2**64 - 1 - k, 2**32, 2**31, rng.getrandbits(64), rng.getrandbits(64), rng.getrandbits(16)]
@@ -181,12 +220,16 @@ def gen(tier, rng):
                 out.append(f"vec {k} inn {pos} {n}")
             for n in [-2, -1] + list(range(0, room + 3)):
                 out.append(f"vec {k} irg {pos} {n}")
+            for n in range(0, room + 3):
+                out.append(f"vec {k} irg_fwd {pos} {n}")
             for l in range(pos - 2, sz + 3):
                 out.append(f"vec {k} err {pos} {l}")
         for n in list(range(0, 7)) + BIG:
             out += [f"vec {k} rsz {n}", f"vec {k} rsv {n}", f"vec {k} asn {n}", f"vec {k} ctor_n {n}", f"vec {k} ctor_nv {n}"]
         for n in range(-2, 8):
             out += [f"vec {k} asr {n}", f"vec {k} ctor_rg {n}"]
+            if n >= 0:
+                out += [f"vec {k} asr_fwd {n}", f"vec {k} ctor_rg_fwd {n}"]
         for i in list(range(0, sz + 3)) + BIG:
             out += [f"vec {k} at {i}", f"vec {k} cat {i}"]
     for cap in (0, 4):
@@ -203,6 +246,20 @@ def gen(tier, rng):
                     f"sv {n} idx {a} 0", f"sv {n} rmp {a} 0", f"sv {n} rms {a} 0"]
             for b in list(range(0, n + 3)) + [-1, -2, 2**64 - 1 - a if a >= 0 else 5, 2**63]:
                 out += [f"span {n} subspan {a} {b}", f"sv {n} substr {a} {b}", f"sv {n} copy {b} {a}"]
+    # compile-time forms first<Count>() / last<Count>() / subspan<Offset, Count>() on a span of dynamic extent, and the
+    # run-time forms on spans of static extent 0 and 3
+    for n in range(0, 5):
+        for c in range(0, 7):
+            out += [f"span {n} tfirst {c} 0", f"span {n} tlast {c} 0"]
+        for off in range(0, 6):
+            for c in (0, 1, 2, 3, 4, -1):
+                out.append(f"span {n} tsub {off} {c}")
+    for n in (0, 3):
+        out += [f"sspan {n} front 0 0", f"sspan {n} back 0 0"]
+        for a in list(range(0, n + 3)) + BIG + [2**64 - n, 2**64 - n - 1]:
+            out += [f"sspan {n} idx {a} 0", f"sspan {n} first {a} 0", f"sspan {n} last {a} 0"]
+            for b in list(range(0, n + 3)) + [-1, -2, 2**64 - 1 - a if a >= 0 else 5, 2**63]:
+                out.append(f"sspan {n} subspan {a} {b}")
     for e in (0, 1):
         for o in ("deref", "cderef", "rderef", "crderef", "ref"):
             out.append(f"opt {e} {o}")
